@@ -71,8 +71,21 @@ func (c *cluster) Mutex(name string) (Mutex, error) {
 		return nil, err
 	}
 
-	return &mutex{
+	// One mutex object per name and member: concurrency.Mutex is keyed by the
+	// session, so two objects of the same name on the same session would both
+	// "hold" the lock at the same time.
+	c.mutexesMutex.Lock()
+	defer c.mutexesMutex.Unlock()
+	if m, exists := c.mutexes[name]; exists {
+		return m, nil
+	}
+	m := &mutex{
 		m:       concurrency.NewMutex(session, name),
 		timeout: c.requestTimeout,
-	}, nil
+	}
+	if c.mutexes == nil {
+		c.mutexes = make(map[string]*mutex)
+	}
+	c.mutexes[name] = m
+	return m, nil
 }
